@@ -159,6 +159,57 @@ Deep(st, v, fuel) ==
          [] v.t = "bound" -> [t |-> "builtin", name |-> v.m]
          [] OTHER -> v
 
+
+\* structural equality as `==` computes it, for the values whose equality is structural: "t", "f", or "u" when the
+\* comparison leaves the modelled values (functions and methods compare by identity of objects the model does not
+\* track; a comparison deeper than the fuel may be cyclic)
+RECURSIVE DeepEq(_, _, _, _), DeepEqSeq(_, _, _, _, _), DeepEqDict(_, _, _, _, _)
+DeepEq(st, a, b, fuel) ==
+  IF fuel = 0 THEN "u"
+  ELSE IF a.t \in {"fn", "builtin", "bound", "range", "unbound"} \/ b.t \in {"fn", "builtin", "bound", "range", "unbound"} THEN "u"
+  ELSE IF a.t # b.t THEN "f"
+  ELSE CASE a.t = "none" -> "t"
+         [] a.t \in {"bool", "int", "str"} -> (IF a.v = b.v THEN "t" ELSE "f")
+         [] a.t = "tuple" -> (IF Len(a.e) # Len(b.e) THEN "f" ELSE DeepEqSeq(st, a.e, b.e, 1, fuel - 1))
+         [] a.t = "ref" ->
+              LET x == st.heap[a.id] y == st.heap[b.id] IN
+              IF x.t # y.t THEN "f"
+              ELSE IF x.t = "obj" THEN (IF a.id = b.id THEN "t" ELSE "f")          \* host objects: identity
+              ELSE IF x.t = "list" THEN (IF Len(x.e) # Len(y.e) THEN "f" ELSE DeepEqSeq(st, x.e, y.e, 1, fuel - 1))
+              ELSE IF Len(x.e) # Len(y.e) THEN "f" ELSE DeepEqDict(st, x, y, 1, fuel - 1)
+         [] OTHER -> "u"
+DeepEqSeq(st, xs, ys, i, fuel) ==
+  IF i > Len(xs) THEN "t"
+  ELSE LET r == DeepEq(st, xs[i], ys[i], fuel) IN IF r = "t" THEN DeepEqSeq(st, xs, ys, i + 1, fuel) ELSE r
+\* dicts are equal when they have the same keys with equal values, whatever the insertion order
+DeepEqDict(st, x, y, i, fuel) ==
+  IF i > Len(x.e) THEN "t"
+  ELSE LET j == DictIdx(st, y, x.e[i][1]) IN
+       IF j = 0 THEN "f"
+       ELSE LET r == DeepEq(st, x.e[i][2], y.e[j][2], fuel) IN IF r = "t" THEN DeepEqDict(st, x, y, i + 1, fuel) ELSE r
+
+\* ordered comparison of two sequences: the first unequal pair of elements decides, then the lengths.
+\* result "lt" / "eq" / "gt", "e" = the deciding pair is not ordered (an error), "u" = outside the modelled values
+RECURSIVE SeqCmp(_, _, _, _, _), ElemCmp(_, _, _, _)
+ElemCmp(st, a, b, fuel) ==
+  IF fuel = 0 THEN "u"
+  ELSE CASE a.t = "int" /\ b.t = "int" -> (IF a.v < b.v THEN "lt" ELSE IF a.v > b.v THEN "gt" ELSE "eq")
+         [] a.t = "bool" /\ b.t = "bool" -> (IF a.v = b.v THEN "eq" ELSE IF b.v THEN "lt" ELSE "gt")
+         [] a.t = "tuple" /\ b.t = "tuple" -> SeqCmp(st, a.e, b.e, 1, fuel - 1)
+         [] IsList(st, a) /\ IsList(st, b) -> SeqCmp(st, st.heap[a.id].e, st.heap[b.id].e, 1, fuel - 1)
+         [] a.t \in {"int", "bool", "none", "tuple"} /\ b.t \in {"int", "bool", "none", "tuple"} /\ a.t # b.t -> "e"
+         [] (a.t \in {"int", "bool", "none", "tuple"} /\ IsList(st, b)) \/ (IsList(st, a) /\ b.t \in {"int", "bool", "none", "tuple"}) -> "e"
+         [] OTHER -> "u"
+SeqCmp(st, xs, ys, i, fuel) ==
+  IF i > Len(xs) \/ i > Len(ys) THEN (IF Len(xs) < Len(ys) THEN "lt" ELSE IF Len(xs) > Len(ys) THEN "gt" ELSE "eq")
+  ELSE LET q == DeepEq(st, xs[i], ys[i], fuel) IN
+       IF q = "u" THEN "u"
+       ELSE IF q = "t" THEN SeqCmp(st, xs, ys, i + 1, fuel)
+       ELSE ElemCmp(st, xs[i], ys[i], fuel)
+
+SQ == INSTANCE Seqs
+OptInt(v) == IF v.t = "none" THEN [some |-> FALSE] ELSE [some |-> TRUE, v |-> v.v]
+
 \* ---------------------------------------------------------------- arithmetic
 FloorDiv(a, b) == IF b > 0 THEN a \div b ELSE (-a) \div (-b)
 FloorMod(a, b) == a - b * FloorDiv(a, b)
@@ -180,14 +231,22 @@ BinOp(st, op, a, b, pos) ==
     [] op \in {"+", "-", "//", "%"} /\ {a.t, b.t} \subseteq {"int", "none", "bool"} /\ ~(a.t = "int" /\ b.t = "int") -> RFail(st, "binop", pos)
     [] op \in {"-", "//"} /\ a.t \in {"str", "tuple", "none", "bool"} /\ b.t \in {"int", "str", "tuple", "none", "bool"} -> RFail(st, "binop", pos)
     [] op = "+" /\ a.t \in {"int", "str", "tuple", "none", "bool"} /\ b.t \in {"int", "str", "tuple", "none", "bool"} /\ a.t # b.t -> RFail(st, "binop", pos)
-    [] op = "==" -> (IF a.t = "ref" \/ b.t = "ref" \/ a.t = "tuple" THEN RFail(st, "unsupported", pos) ELSE R(st, VBool(VEq(st, a, b))))
-    [] op = "!=" -> (IF a.t = "ref" \/ b.t = "ref" \/ a.t = "tuple" THEN RFail(st, "unsupported", pos) ELSE R(st, VBool(~VEq(st, a, b))))
+    [] op \in {"==", "!="} ->
+         LET q == DeepEq(st, a, b, 8) IN
+         IF q = "u" THEN RFail(st, "unsupported", pos) ELSE R(st, VBool((q = "t") = (op = "==")))
+    [] op \in {"<", "<=", ">", ">="} /\ ((a.t = "tuple" /\ b.t = "tuple") \/ (IsList(st, a) /\ IsList(st, b))) ->
+         LET c == ElemCmp(st, a, b, 8) IN
+         IF c = "u" THEN RFail(st, "unsupported", pos)
+         ELSE IF c = "e" THEN RFail(st, "binop", pos)
+         ELSE R(st, VBool(CASE op = "<" -> c = "lt" [] op = "<=" -> c \in {"lt", "eq"} [] op = ">" -> c = "gt" [] op = ">=" -> c \in {"gt", "eq"}))
     [] op \in {"<", "<=", ">", ">="} /\ a.t = "int" /\ b.t = "int" ->
          R(st, VBool(CASE op = "<" -> a.v < b.v [] op = "<=" -> a.v <= b.v [] op = ">" -> a.v > b.v [] op = ">=" -> a.v >= b.v))
     [] op \in {"<", "<=", ">", ">="} /\ a.t # b.t /\ {a.t, b.t} \subseteq {"int", "str", "none"} -> RFail(st, "binop", pos)
-    [] op \in {"in", "not in"} /\ (b.t = "tuple" \/ IsList(st, b)) /\ a.t \in {"int", "str", "none", "bool"} ->
-         LET es == Elems(st, b).e hit == \E i \in 1..Len(es) : VEq(st, es[i], a) IN
-         IF \E i \in 1..Len(es) : es[i].t \in {"ref", "tuple", "fn", "builtin", "bound"} THEN RFail(st, "unsupported", pos)
+    [] op \in {"in", "not in"} /\ (b.t = "tuple" \/ IsList(st, b)) /\ a.t \in {"int", "str", "none", "bool", "tuple", "ref"} ->
+         LET es == Elems(st, b).e
+             q == [i \in 1..Len(es) |-> DeepEq(st, es[i], a, 8)]
+             hit == \E i \in 1..Len(es) : q[i] = "t" IN
+         IF \E i \in 1..Len(es) : q[i] = "u" THEN RFail(st, "unsupported", pos)
          ELSE R(st, VBool(IF op = "in" THEN hit ELSE ~hit))
     [] op \in {"in", "not in"} /\ IsDict(st, b) /\ Hashable(a) ->
          LET hit == DictIdx(st, st.heap[b.id], a) # 0 IN R(st, VBool(IF op = "in" THEN hit ELSE ~hit))
@@ -283,7 +342,22 @@ Eval(e, fr, st) ==
                   acc == IF e.curly THEN Alloc(nf.st, [t |-> "dict", e |-> <<>>, iters |-> 0])
                                     ELSE Alloc(nf.st, [t |-> "list", e |-> <<>>, iters |-> 0])
               IN R(CompFor(e, 1, first.v, acc.id, nf.id, acc.st, TRUE), VRef(acc.id))
-    [] e.k = "slice" -> RFail(st, "unsupported", e.p)
+    [] e.k = "slice" ->
+         \* operand, then start, end and stride (None when absent) left to right; then the SLICE operation checks the
+         \* operand kind, the stride (type, zero), the start and the end
+         LET none == [k |-> "val", v |-> VNone]
+             r == EvalSeq(<<e.x, IF e.haslo THEN e.lo ELSE none, IF e.hashi THEN e.hi ELSE none, IF e.hasstep THEN e.step ELSE none>>, 1, fr, st) IN
+         IF Failed(r.st) THEN R(r.st, VNone)
+         ELSE LET x == r.v[1] lo == r.v[2] hi == r.v[3] step == r.v[4] IN
+              IF x.t \in {"int", "none", "bool", "fn", "builtin", "bound"} \/ IsDict(r.st, x) \/ IsObj(r.st, x) THEN RFail(r.st, "slice-operand", e.p)
+              ELSE IF ~(x.t = "tuple" \/ IsList(r.st, x)) THEN RFail(r.st, "unsupported", e.p)
+              ELSE IF step.t \notin {"int", "none"} THEN RFail(r.st, "slice-index", e.p)
+              ELSE IF step.t = "int" /\ step.v = 0 THEN RFail(r.st, "slice-zero", e.p)
+              ELSE IF lo.t \notin {"int", "none"} \/ hi.t \notin {"int", "none"} THEN RFail(r.st, "slice-index", e.p)
+              ELSE LET es == Elems(r.st, x).e
+                       out == SQ!Slice(es, OptInt(lo), OptInt(hi), OptInt(step)).v IN
+                   IF x.t = "tuple" THEN R(r.st, VTuple(out))
+                   ELSE LET n == Alloc(r.st, [t |-> "list", e |-> out, iters |-> 0]) IN R(n.st, VRef(n.id))
     [] OTHER -> RFail(st, "unsupported", <<0, 0>>)
 
 \* dict display: key then value for each entry, in order; duplicate keys are an error
@@ -560,7 +634,12 @@ ExecStmt(s, fr, st) ==
                           IF Failed(cur.st) THEN Flow(cur.st, "next", VNone)
                           ELSE LET b == Eval(s.rhs, fr, cur.st) IN
                                IF Failed(b.st) THEN Flow(b.st, "next", VNone)
-                               ELSE IF op = "+" /\ IsList(b.st, cur.v) THEN Flow(Err(b.st, "unsupported", s.p), "next", VNone)
+                               ELSE IF op = "+" /\ IsList(b.st, cur.v) THEN      \* the list is extended in place, then stored back
+                                    (LET es == Elems(b.st, b.v) IN
+                                     IF ~es.ok THEN Flow(Err(b.st, IF b.v.t = "str" THEN "unsupported" ELSE "binop", s.p), "next", VNone)
+                                     ELSE IF ~Mutable(b.st, cur.v.id) THEN Flow(Err(b.st, MutErr(b.st, cur.v.id), s.p), "next", VNone)
+                                     ELSE Flow(AssignTo([k |-> "index", p |-> s.lhs.p, x |-> lit(x.v), y |-> lit(y.v)], cur.v, fr,
+                                                        [b.st EXCEPT !.heap[cur.v.id].e = @ \o es.e]), "next", VNone))
                                ELSE LET c == BinOp(b.st, op, cur.v, b.v, s.p) IN
                                     IF Failed(c.st) THEN Flow(c.st, "next", VNone)
                                     ELSE Flow(AssignTo([k |-> "index", p |-> s.lhs.p, x |-> lit(x.v), y |-> lit(y.v)], c.v, fr, c.st), "next", VNone)
@@ -572,7 +651,12 @@ ExecStmt(s, fr, st) ==
                      IF Failed(cur.st) THEN Flow(cur.st, "next", VNone)
                      ELSE LET b == Eval(s.rhs, fr, cur.st) IN
                           IF Failed(b.st) THEN Flow(b.st, "next", VNone)
-                          ELSE IF op = "+" /\ IsList(b.st, cur.v) THEN Flow(Err(b.st, "unsupported", s.p), "next", VNone)
+                          ELSE IF op = "+" /\ IsList(b.st, cur.v) THEN
+                               (LET es == Elems(b.st, b.v) IN
+                                IF ~es.ok THEN Flow(Err(b.st, IF b.v.t = "str" THEN "unsupported" ELSE "binop", s.p), "next", VNone)
+                                ELSE IF ~Mutable(b.st, cur.v.id) THEN Flow(Err(b.st, MutErr(b.st, cur.v.id), s.p), "next", VNone)
+                                ELSE Flow(AssignTo([k |-> "dot", p |-> s.lhs.p, x |-> lit(x.v), name |-> s.lhs.name], cur.v, fr,
+                                                   [b.st EXCEPT !.heap[cur.v.id].e = @ \o es.e]), "next", VNone))
                           ELSE LET c == BinOp(b.st, op, cur.v, b.v, s.p) IN
                                IF Failed(c.st) THEN Flow(c.st, "next", VNone)
                                ELSE Flow(AssignTo([k |-> "dot", p |-> s.lhs.p, x |-> lit(x.v), name |-> s.lhs.name], c.v, fr, c.st), "next", VNone)
